@@ -102,6 +102,9 @@ func (vc *VC) loopHead(st *State, fr *Frame, h, pred *ssa.BasicBlock, back bool,
 				vc.oblige(st, fmt.Sprintf("decreases.loop%d", n), "", and(app("<=", "0", lc.dec0), app("<", t.S, lc.dec0)), spec.Decreases, "")
 			}
 		}
+		if keys, all := vc.loopModKeys(fr.fn, h); !all {
+			vc.loopFrame(st, fr, n, keys, "step")
+		}
 		if st.ctx.blk.Kind == "opcase" && fr.top && n == 1 {
 			vc.opcaseEnd(st, fr, nil)
 		}
@@ -122,17 +125,28 @@ func (vc *VC) loopHead(st *State, fr *Frame, h, pred *ssa.BasicBlock, back bool,
 	}
 	// havoc
 	keys, all := vc.loopModKeys(fr.fn, h)
+	if !all {
+		vc.loopFrame(st, fr, n, keys, "entry")
+	}
 	if all {
 		vc.havocAll(st)
 	} else {
 		for _, k := range keys {
 			if vc.heapImm[k] {
+				if vc.selfWritten[k] {
+					// an immutable field that this function writes on the
+					// objects it constructs: objects that exist at the loop
+					// head keep their value, younger ones are unknown
+					o, n := vc.newVersion(st, k)
+					vc.assume(st, fmt.Sprintf("(forall ((a Int)) (! (=> (<= (root a) %s) (= (select %s a) (select %s a))) :pattern ((select %s a))))", st.mark, n, o, n))
+				}
 				continue
 			}
 			vc.heapName(st, k, vc.heapSort[k])
 			vc.newVersion(st, k)
 		}
 		vc.bumpMark(st)
+		vc.loopFrame(st, fr, n, keys, "assume")
 	}
 	hv := make([]T, len(phis))
 	for i, p := range phis {
@@ -469,6 +483,14 @@ func NewVC(P *Program, fn *ssa.Function, blk *Block, opt Options) *VC {
 	for _, im := range P.Immutable {
 		vc.markImmutable(im)
 	}
+	// a function that itself writes a field (its constructor) sees it as
+	// ordinary mutable memory
+	if fn != nil && fn.Blocks != nil {
+		set := map[string]bool{}
+		all := false
+		vc.scanMods(fn.Blocks, set, &all, map[*ssa.Function]bool{fn: true})
+		vc.selfWritten = set
+	}
 	return vc
 }
 
@@ -616,7 +638,7 @@ func Verify(P *Program, blk *Block, opt Options) (res *Result) {
 				return res
 			}
 			cur, _, _ := ec.eval(e)
-			vc.hstore(pre, tg[0].key, SInt, base.S, T{S: app("+", cur.S, fmt.Sprint(d)), Sort: SInt})
+			vc.hstore(pre, tg[0].key, SInt, base.S, T{S: app("+", cur.S, I(int64(d)).S), Sort: SInt})
 		}
 		// definitional facts of the virtual state are facts of the real one too
 		st.assumes = append([]string(nil), pre.assumes...)
@@ -638,6 +660,17 @@ func Verify(P *Program, blk *Block, opt Options) (res *Result) {
 			return res
 		}
 		vc.assumeCond(pre, t.S)
+	}
+	for _, c := range blk.Unfolds {
+		ec := &evalCtx{vc: vc, now: pre, old: pre, pkg: fn.Pkg.Pkg, env: vc.baseEnv(ctx), fn: fn}
+		vc.pure++
+		f, err := ec.unfold(c.Text)
+		vc.pure--
+		if err != nil {
+			res.Err = fmt.Errorf("%s:%d: %v", c.File, c.Line, err)
+			return res
+		}
+		vc.assume(pre, f)
 	}
 	if pre != st {
 		st.assumes = append([]string(nil), pre.assumes...)
@@ -713,6 +746,59 @@ func (vc *VC) atReturn(st *State, fr *Frame, rs []T) {
 		vc.canary(st, "return")
 	}
 	vc.pathEnd()
+}
+
+// frameGoal: heap array k agrees with its entry version outside the
+// declared modifies regions for all addresses that existed at entry.
+func (vc *VC) frameGoal(st *State, k string, tg []modTarget) string {
+	cur := vc.heapName(st, k, vc.heapSort[k])
+	ent := vc.heapName(vc.entry, k, vc.heapSort[k])
+	if cur == ent {
+		return ""
+	}
+	var regs []string
+	for _, t := range tg {
+		if t.key == k {
+			regs = append(regs, t.region("a!f"))
+		}
+	}
+	return fmt.Sprintf("(forall ((a!f Int)) (! (=> (and (<= (root a!f) mark0) (not %s)) (= (select %s a!f) (select %s a!f))) :pattern ((select %s a!f))))", or(regs...), cur, ent, cur)
+}
+
+// loopFrame: the function's frame (modifies clause) as an automatic loop
+// invariant for the heap arrays the loop may write: asserted on the entry
+// edge and on every back edge, assumed after the havoc at the loop head.
+func (vc *VC) loopFrame(st *State, fr *Frame, n int, keys []string, mode string) {
+	if !fr.top || st.ctx == nil || st.ctx.blk != vc.blk || !(vc.blk.HasMod || vc.blk.Pure) || vc.entry == nil || st.baseVer != "0" {
+		return
+	}
+	tg, err := vc.modTargets(vc.blk, vc.fn.Pkg.Pkg, vc.baseEnv(st.ctx), vc.entry)
+	if err != nil {
+		vc.fail(err)
+		return
+	}
+	for _, t := range tg {
+		if t.all {
+			return
+		}
+	}
+	for _, k := range keys {
+		if vc.heapImm[k] {
+			continue
+		}
+		if _, ok := vc.heapSort[k]; !ok {
+			continue
+		}
+		g := vc.frameGoal(st, k, tg)
+		if g == "" {
+			continue
+		}
+		if mode == "assume" {
+			vc.assume(st, g)
+		} else {
+			vc.oblige(st, fmt.Sprintf("modifies.loop%d.%s", n, mode), k, g, nil, "")
+		}
+	}
 }
 
 // frameObligations: every heap array whose version changed must agree
